@@ -64,8 +64,25 @@ theorem logs_laws : BatchLaws logsBatch flatten :=
 theorem metrics_laws : BatchLaws metricsBatch mflatten :=
   ⟨mcount_eq_length, rfl, fun a b => by simp [metricsBatch, mflatten], C17_split_conserve_metrics, C17_split_size_metrics⟩
 
-/-- configuration accepted by `Config.Validate` -/
+/-- configuration accepted by `Config.Validate` (the part the batching logic depends on; `validCfg` in the model is the
+whole `Validate()`, tied to the real one by exact differential on raw configurations) -/
 def Cfg.valid (c : Cfg) : Prop := c.max = 0 ∨ c.sbs ≤ c.max
+
+/-- what `Validate()` accepting a configuration gives the theorems: the size relation every theorem below takes as its
+explicit hypothesis `c.valid`, a non-negative timeout, and case-insensitively distinct metadata keys.  A change that makes
+the real `Validate()` accept more (e.g. `0 < max < size`) breaks the differential on `validCfg`, not these theorems. -/
+theorem C17_validCfg_sound (r : RawCfg) (h : validCfg r = true) :
+    r.toCfg.valid ∧ 0 ≤ r.timeout ∧ nodupB (r.keys.map String.toLower) = true := by
+  simp only [validCfg, Bool.and_eq_true, Bool.not_eq_true', Bool.and_eq_false_iff, decide_eq_false_iff_not,
+    decide_eq_true_eq] at h
+  refine ⟨?_, h.2, h.1.2⟩
+  simp only [Cfg.valid, RawCfg.toCfg]
+  rcases h.1.1 with h' | h' <;> omega
+
+/-- the design-time reading of the round-4 seed: `size = 10, max = 4` is NOT a valid configuration -/
+example : validCfg { sbs := 10, max := 4, timeout := 0, keys := ["tenant"], limit := 0 } = false := by decide
+example : validCfg { sbs := 3, max := 3, timeout := 200001, keys := [], limit := 2 } = true := by decide
+example : validCfg { sbs := 3, max := 0, timeout := -1, keys := [], limit := 0 } = false := by decide
 
 /-- what the loop does between two `select`s -/
 inductive Label (P : Type) where
